@@ -17,7 +17,7 @@ RULE = (
     "nullable dtypes, pa.Array, pa.ChunkedArray, Arrow dictionary, Arrow-backed pandas, polars) AND values (NumPy, "
     "pandas Series, nullable and Arrow-backed pandas, pa.Array, pa.ChunkedArray, polars; arbitrary chunk boundaries "
     "incl. empty chunks, misaligned between keys and values; collections as dict / pandas / polars DataFrame), for "
-    "the 8 reductions, transform, cumulative, rolling extrema and shift; integer columns with nulls (nullable pandas, "
+    "the 8 reductions, var, median, transform, cumulative, rolling sums and extrema, shift, diff and EMA; integer columns with nulls (nullable pandas, "
     "Arrow-backed pandas, polars) are compared with the reference model in a separate sub-check.  Non-trivial = the rendering differs from the "
     "base in container AND (has a null, or is chunked with a boundary inside a group, or is temporal / narrow int).  "
     "Distinct = case hash."
@@ -42,7 +42,10 @@ KEY_CONTAINERS = {
 }
 VAL_CONTAINERS = ["np", "series", "series_nullable", "pa", "pa_chunked", "pd_arrow", "pd_arrow_chunked", "pl"]
 OPS12 = ("size", "count", "sum", "mean", "min", "max", "first", "last", "cumsum", "cummin", "cummax", "rolling_min", "rolling_max",
-         "shift", "sum_transform", "min_transform", "last_transform")
+         "shift", "sum_transform", "min_transform", "last_transform",
+         # statistics and row-aligned float operations: same numbers (rel 1e-9) whatever the container
+         "var", "median", "rolling_sum", "diff", "ema", "mean_transform")
+FLOAT_OPS = {"var": "fiu", "median": "fiu", "rolling_sum": "fiu", "ema": "fi", "diff": "fiumM", "mean_transform": "fiubmM"}
 SELECTIONS = ("min", "max", "first", "last", "cummin", "cummax", "rolling_min", "rolling_max", "shift", "min_transform", "last_transform")
 VARIANTS = {"f": ("float64", "float32"), "i": ("int64", "int32", "int16", "int8", "uint8", "uint16", "uint32", "uint64", "bool"),
             "t": ("M8[ns]", "M8[s]", "M8[us]", "m8[ns]", "m8[s]", "tz:US/Eastern:ns", "tz:UTC:us")}
@@ -95,7 +98,8 @@ def case_strategy(draw, variant):
     else:
         family = "single"
     vkind = data.val_kind(vals[0])
-    opsl = [o for o in OPS12 if not (vkind == "M" and o in ("sum", "cumsum", "sum_transform")) and not (vkind == "b" and o in ("rolling_min", "rolling_max", "shift"))]
+    opsl = [o for o in OPS12 if not (vkind == "M" and o in ("sum", "cumsum", "sum_transform")) and not (vkind == "b" and o in ("rolling_min", "rolling_max", "shift"))
+            and not (o in FLOAT_OPS and any(data.val_kind(v) not in FLOAT_OPS[o] for v in vals))]
     op = draw(st.sampled_from(opsl))
     mask = draw(S.mask_spec(n, kinds=("none", "none", "bool")))
     return {"n": n, "keys": keys, "kcs": kcs, "vals": vals, "vcs": vcs, "family": family, "op": op, "mask": mask, "sort": True,
@@ -109,8 +113,10 @@ def call(gb, op, values, mask, case):
         return getattr(gb, op[:-10])(values, mask=mask, transform=True)
     if op.startswith("rolling_"):
         return getattr(gb, op)(values, window=case["window"], min_periods=1, mask=mask)
-    if op == "shift":
-        return gb.shift(values, window=case["window"], mask=mask)
+    if op in ("shift", "diff"):
+        return getattr(gb, op)(values, window=case["window"], mask=mask)
+    if op == "ema":
+        return gb.ema(values, alpha=0.5, mask=mask)
     return getattr(gb, op)(values, mask=mask)
 
 
@@ -209,7 +215,7 @@ def check(case, ctx):
     idxA, colsA, dtA = columns_of(resA, len(vbase))
     idxB, colsB, dtB = columns_of(resB, len(vobjs))
     dictionary_like = any(kc.startswith("pa_dict") or kc in ("cat",) or (k["t"] == "cat") for k, kc in zip(case["keys"], case["kcs"]))
-    if idxA is not None and idxB is not None and op in gbops.REDUCTIONS8:
+    if idxA is not None and idxB is not None and op in gbops.REDUCTIONS8 + ("var", "median"):
         if dictionary_like:
             # dictionary / categorical containers list labels in dictionary order (C11): compare as a mapping
             if sorted(idxA, key=repr) != sorted(idxB, key=repr):
@@ -221,7 +227,7 @@ def check(case, ctx):
             raise Violation(f"labels:{op}", f"numpy {idxA} vs rendering {idxB}")
     if len(colsA) != len(colsB):
         raise Violation(f"columns:{op}", f"{len(colsA)} vs {len(colsB)}")
-    tol = 1e-9 if op in ("sum", "mean", "cumsum", "sum_transform") else 0.0
+    tol = 1e-9 if op in ("sum", "mean", "cumsum", "sum_transform", "var", "median", "rolling_sum", "ema", "mean_transform") else 0.0
     for j, (a, b) in enumerate(zip(colsA, colsB)):
         if not ops.same_values(a, b, tol):
             raise Violation(f"values:{op}", f"column {j}: numpy rendering {a} vs {case['kcs']}/{case['vcs']} rendering {b}")
